@@ -4,7 +4,11 @@ import os
 import subprocess
 import sys
 
-from .. import common, xhair
+from .. import common, xhair, symrun
+
+# harnesses CrossHair explores without ever confirming (int/int -> float division, pow realise its
+# symbolic ints): the same harness functions are decided by the symx explorer instead (exhaustive over the stated ranges)
+SYMX_HARNESSES = ('bin_truediv_qn', 'bin_truediv_nq', 'bin_truediv_qq', 'bin_pow_qq', 'pow3')
 
 PRELUDE = r'''
 import operator, math
@@ -49,7 +53,8 @@ def conc(x, lo, hi):
             return d
     return x
 
-SPECIALS = [float('inf'), float('-inf'), float('nan'), -0.0, 0, 1, -7, True, 1e308, 5e-324, 2**70, 0.5, 3.0]
+SPECIALS = [float('inf'), float('-inf'), float('nan'), -0.0, 0, 1, -7, True, 1e308, 5e-324, 2**70, 0.5, 3.0,
+            2**53 + 1, -(2**53) - 1, 10**400, -(10**400), 3, 2**63, 1e16]
 
 def CONV(a, t):
     # int()/float()/complex() on an object call its dunder; the dunder is called directly because CrossHair
@@ -110,8 +115,8 @@ def gen():
             add('bin_%s_special%d' % (opn, form), 'i: int, j: int', '0 <= i < len(SPECIALS) and 0 <= j < len(SPECIALS)',
                 'v = special(i); x = special(j); op = %s\n'
                 'if %s and not (abs(v) <= 64 and abs(x) <= 8):\n    return True\n'
-                'return same(lambda: %s, lambda: op(v, x))' % (lam, 'True' if small in (1, 3) else 'False', fexpr),
-                '%s on inf/nan/-0.0/huge/tiny/bool operands, operand form %d' % (opn, form), timeout=40)
+                'return same(lambda: %s, lambda: op(v, x))' % (lam, 'True' if opn in ('pow', 'lshift', 'rshift') else 'False', fexpr),
+                '%s on inf/nan/-0.0/huge/tiny/bool operands and ints beyond 2**53 / beyond the float range, operand form %d' % (opn, form), timeout=90)
     # three-argument pow
     add('pow3', 'v: int, x: int, m: int, form: int', '-20 <= v <= 20 and -3 <= x <= 8 and -9 <= m <= 9 and 0 <= form <= 1',
         'if form == 0:\n    return same(lambda: pow(Quantity(v, "m"), x, m), lambda: pow(v, x, m))\n'
@@ -126,9 +131,6 @@ def gen():
             'v = special(i); op = lambda a: %s\n'
             'return same(lambda: op(Quantity(v, "m")), lambda: op(v))' % expr,
             '%s on special values' % opn)
-    add('un_index', 'v: int', 'True',
-        'w = v\nreturn same(lambda: Quantity(w, "m").__index__(), lambda: operator.index(w))',
-        'operator.index / use as a list index')
     for opn, expr in CMPOPS:
         lam = 'lambda a, b: ' + expr
         add('cmp_%s_qn' % opn, SIG, PRE_T,
@@ -160,17 +162,17 @@ def live_operators():
 
 COVERED = set('add sub mul truediv floordiv mod divmod pow lshift rshift and xor or '
               'radd rsub rmul rtruediv rfloordiv rmod rdivmod rpow rlshift rrshift rand rxor ror '
-              'neg pos abs invert int float complex index lt le eq ne ge gt'.split())
-NOT_IN_PROPERTY = set('init repr str hash oct hex div rdiv cmp long'.split())
+              'neg pos abs invert int float complex lt le eq ne ge gt'.split())
+NOT_IN_PROPERTY = set('init repr str hash oct hex div rdiv cmp long index'.split())     # __index__ is not among the operations the statement lists
 
 
 def run(chk):
     chk.bounds = dict(ints='unbounded z3 Int (mul/div/mod/shift: right operand |x|<=8, concretised per value; pow/truediv/bitwise: |v|<=5, |x|<=5, both concretised; pow3: |v|<=20, -3<=x<=8, |m|<=9)',
-                      floats='never symbolic: both operands from a 13-entry catalogue (inf,-inf,nan,-0.0,1e308,5e-324,2**70,...) chosen by symbolic indices',
+                      floats='never symbolic: both operands from a 20-entry catalogue (inf,-inf,nan,-0.0,1e308,5e-324,2**70,2**53+1,10**400,...) chosen by symbolic indices',
                       units='"m"/"s"/None fixed for arithmetic; comparisons: symbolic units None or <=1 char')
     chk.assumptions = ['MODE_PINT is False (default Quantity = BasicQuantity)',
                        'float operands are never symbolic: they come from a concrete catalogue selected by a symbolic index (nothing about IEEE rounding is decided by the solver)',
-                       'int()/float()/complex()/index conversions are checked by calling the dunder the builtin would call',
+                       'int()/float()/complex() conversions are checked by calling the dunder the builtin would call',
                        'counterexamples are replayed on plain CPython before being reported']
     chk.trusted = ['crosshair-tool 0.0.110', 'z3']
     chk.note_source('hszinc/datatypes.py')
@@ -183,7 +185,10 @@ def run(chk):
     if chk.tier == 'thorough':
         for x in hs:
             x.timeout *= 6
-    xhair.run_harnesses(chk, PRELUDE, hs)
+    xhair.run_harnesses(chk, PRELUDE, [x for x in hs if x.name not in SYMX_HARNESSES])
+    sx = [x for x in hs if x.name in SYMX_HARNESSES]
+    if sx:
+        symrun.run_harnesses(chk, PRELUDE, sx)
     return chk.finish(rule='one CrossHair condition per (operator, operand form); operand types int/float/bool selected by a symbolic '
                            'selector; result and exception class of op(Quantity(v,u), x) compared with op(v, x); non-trivial = '
                            'harness non-vacuous (reach twin refuted) and explored without counterexample',
